@@ -200,6 +200,7 @@ KEY_DOMAINS = {
 	"date": [V.D0, date(2021, 2, 28), date(1999, 12, 31)],
 	"hash": [1, 2**61, -(2**61 - 1) + 1, 2**61 - 1 + 1, 0, 2],   # ints colliding modulo 2**61-1
 	"intbool": [1, True, 0, False, 2, 1],
+	"datetime": [V.datetime(2020, 1, 31, 5, 0), V.datetime(2020, 1, 31, 17, 30), V.datetime(2020, 1, 31, 0, 0), V.datetime(2021, 2, 28, 0, 0), V.datetime(2020, 1, 31, 5, 0, 1)],   # several instants of one day
 	"eqmix": [1, True, 1.0, 0, False, 0.0, 2],                   # group keys only (float kind is not a legal join key)                        # values equal under == but of different type (kind int)
 }
 
@@ -213,7 +214,7 @@ def gen_key_column(rng, kind, n, p_none, dom_size=3):
 
 def gen_join_spec(rng, max_rows=8, how=None, nkeys=None, unique_left=None, unique_right=None):
 	nkeys = nkeys or rng.choice([1, 1, 2, 2, 3])
-	kinds = [rng.choice(["int", "str", "bool", "date", "int", "str", "hash", "intbool"]) for _ in range(nkeys)]
+	kinds = [rng.choice(["int", "str", "bool", "date", "int", "str", "hash", "intbool", "datetime"]) for _ in range(nkeys)]
 	nl = rng.choice([0, 1, 2, 3, max_rows // 2, max_rows])
 	nr = rng.choice([0, 1, 2, 3, max_rows // 2, max_rows])
 	p_none = rng.choice([0.0, 0.0, 0.15, 0.4])
@@ -238,10 +239,37 @@ def gen_join_spec(rng, max_rows=8, how=None, nkeys=None, unique_left=None, uniqu
 		for side in (left, right):
 			side["names"] = side["names"][nkeys:] + side["names"][:nkeys]
 			side["cols"] = side["cols"][nkeys:] + side["cols"][:nkeys]
-	key_mode = rng.choice(["name", "name", "vector", "external"])
+	key_mode = rng.choice(["name", "name", "vector", "external", "named-derived"])
+	# a second column that carries a key's name (as join outputs, >> and renames produce): by name, the FIRST one is the key
+	if rng.random() < 0.15:
+		for side, keynames, n, keycols in ((left, [f"k{i}" for i in range(nkeys)], nl, lk), (right, [(f"k{i}" if same_names else f"r{i}") for i in range(nkeys)], nr, rk)):
+			if rng.random() < 0.6:
+				k = rng.randrange(nkeys)
+				twin = list(keycols[k])
+				rng.shuffle(twin)
+				pos = rng.randrange(len(side["names"]) + 1)
+				side["names"].insert(pos, keynames[k])
+				side["cols"].insert(pos, twin)
+	# key columns without a name (tables built from plain vectors): only reachable by vector
+	if key_mode == "vector" and rng.random() < 0.25:
+		for side, keynames in ((left, [f"k{i}" for i in range(nkeys)]), (right, [(f"k{i}" if same_names else f"r{i}") for i in range(nkeys)])):
+			if rng.random() < 0.7 and side["names"].count(keynames[0]) == 1:
+				side["names"][side["names"].index(keynames[0])] = None
+		lon0 = [nm if nm in left["names"] else None for nm in [f"k{i}" for i in range(nkeys)]]
+		ron0 = [nm if nm in right["names"] else None for nm in [(f"k{i}" if same_names else f"r{i}") for i in range(nkeys)]]
+		return {"op": "join", "how": how or rng.choice(["inner", "left", "full"]), "left": left, "right": right, "lon": lon0, "ron": ron0,
+			"key_mode": key_mode, "single_as_scalar": rng.random() < 0.5, "expect": "many_to_many", "kinds": kinds}
 	return {"op": "join", "how": how or rng.choice(["inner", "left", "full"]), "left": left, "right": right,
 		"lon": [f"k{i}" for i in range(nkeys)], "ron": [(f"k{i}" if same_names else f"r{i}") for i in range(nkeys)],
 		"key_mode": key_mode, "single_as_scalar": rng.random() < 0.5, "expect": "many_to_many", "kinds": kinds}
+
+
+def gen_join_spec_named(rng, **kw):
+	"""a join spec whose key columns all carry names (for workloads that address columns by name)"""
+	while True:
+		spec = gen_join_spec(rng, **kw)
+		if None not in spec["lon"] and None not in spec["ron"]:
+			return spec
 
 
 def force_uniqueness(rng, keycols, unique, kinds):
@@ -265,6 +293,12 @@ def force_uniqueness(rng, keycols, unique, kinds):
 	return [[r[i] for r in rows] for i in range(len(keycols))]
 
 
+def derive_key(col):
+	"""the values of a key vector DERIVED from a column (it keeps the column's name, as -col, abs(col), col.fillna(), col[::-1] do): the column rotated by one"""
+	col = list(col)
+	return col[1:] + col[:1]
+
+
 def key_values(tspec, names):
 	"""key value lists of a table spec by (first occurrence of) column name"""
 	out = []
@@ -280,8 +314,11 @@ def do_join(spec, how=None, expect=None):
 	mode = spec.get("key_mode", "name")
 	lon, ron = list(spec["lon"]), list(spec["ron"])
 	if mode == "vector":
-		lon = [L[n] for n in lon]
-		ron = [R[n] for n in ron]
+		lon = [L.cols()[spec["left"]["names"].index(n)] for n in lon]
+		ron = [R.cols()[spec["right"]["names"].index(n)] for n in ron]
+	elif mode == "named-derived":
+		lon = [Vector(derive_key(c), name=n) for c, n in zip(key_values(spec["left"], lon), lon)]
+		ron = [Vector(list(c), name=n) for c, n in zip(key_values(spec["right"], ron), ron)]
 	elif mode == "external":
 		lon = [Vector(list(c)) for c in key_values(spec["left"], lon)]
 		ron = [Vector(list(c)) for c in key_values(spec["right"], ron)]
